@@ -11,8 +11,7 @@ OKP_NAME = {"ed25519": "Ed25519", "ed448": "Ed448", "x25519": "X25519", "x448": 
 
 
 def _dec(s):
-    from joserfc.util import urlsafe_b64decode
-    return urlsafe_b64decode(s.encode("ascii"))
+    return spec_b64u_decode(s)
 
 
 def h_oct_export_import():
@@ -43,10 +42,13 @@ def h_ec_roundtrip():
     d = key.as_dict(private=True)
     back = call(ECKey.import_key, d)
     check(back.returned, "EC: importing the exported private JWK returns")
-    check(py_eq(back.value.as_dict(private=True), d), "EC: import then export returns the members that were given")
     pubd = key.as_dict(private=False)
     pub = call(ECKey.import_key, pubd)
-    check(pub.returned and not pub.value.is_private, "EC: importing the exported public JWK returns a public key")
+    check(pub.returned, "EC: importing the exported public JWK returns")
+    if not (back.returned and pub.returned):
+        return
+    check(py_eq(back.value.as_dict(private=True), d), "EC: import then export returns the members that were given")
+    check(not pub.value.is_private, "EC: the public JWK imports as a public key")
     alg = {"secp256r1": "ES256", "secp521r1": "ES512"}[crv]
     msg = sym_bytes("msg")
     sig = JWSRegistry.algorithms[alg].sign(msg, back.value)
@@ -66,7 +68,8 @@ def h_okp_export_import():
         check(len(_dec(d["d"])) == OKP_LEN[crv], "OKP: d has the curve's fixed length")
     back = call(OKPKey.import_key, d)
     check(back.returned, "OKP: importing the exported JWK returns")
-    check(py_eq(back.value.as_dict(), d), "OKP: import then export returns the members that were given")
+    if back.returned:
+        check(py_eq(back.value.as_dict(), d), "OKP: import then export returns the members that were given")
 
 
 def h_rsa_export_encoding():
@@ -108,3 +111,39 @@ def h_registry_dispatch():
 
 HARNESSES = [h_oct_export_import, h_ec_export_encoding, h_ec_roundtrip, h_okp_export_import, h_rsa_export_encoding,
              h_oct_import_refuses_malformed]
+
+
+def h_ec_import_refuses_missing_member():
+    crv = sym_choice("crv", ["secp256r1", "secp384r1"])
+    key = make_key("ec", "K", sym_choice("private", [True, False]), crv)
+    d = key.as_dict()
+    missing = sym_choice("missing", ["crv", "x", "y"])
+    d2 = {}
+    for n in d:
+        if n != missing:
+            d2[n] = d[n]
+    out = call(ECKey.import_key, d2)
+    check(out.raised(ValueError) or out.raised(KeyError) and False, "EC: a JWK without a required member (crv, x, y) is refused")
+
+
+def h_rsa_import_refuses_partial_crt():
+    """RSA private JWK with only some of p, q, dp, dq, qi is refused; none or all of them is accepted shape-wise."""
+    d = {"kty": "RSA", "n": spec_b64u(spec_minbe_pos("n")).decode("ascii"), "e": spec_b64u(spec_minbe_pos("e")).decode("ascii"),
+         "d": spec_b64u(spec_minbe_pos("dd")).decode("ascii")}
+    present = []
+    for n in ["p", "q", "dp", "dq", "qi"]:
+        if sym_choice("has_" + n, [False, True]):
+            d[n] = spec_b64u(spec_minbe_pos(n + "v")).decode("ascii")
+            present.append(n)
+    out = call(RSAKey.import_key, d)
+    if len(present) != 0 and len(present) != 5:
+        check(out.raised(ValueError), "RSA: partial CRT parameters are refused")
+
+
+def spec_minbe_pos(name):
+    n = sym_int(name)
+    assume(n > 0)
+    return spec_minbe(n)
+
+
+HARNESSES += [h_ec_import_refuses_missing_member, h_rsa_import_refuses_partial_crt]
